@@ -42,10 +42,10 @@ type simcfg struct {
 }
 
 type hist struct {
-	w     *hx.World
-	nodes []*hx.Node
-	rng   *rand.Rand
-	cfg   simcfg
+	w           *hx.World
+	nodes       []*hx.Node
+	rng         *rand.Rand
+	cfg         simcfg
 	relagVictim *hx.Node // C06 -relag: the validator that lags from the start
 	// statistics
 	laggingDecisions int
@@ -218,8 +218,14 @@ func (h *hist) membership(a *hx.Node) {
 func (h *hist) requestJoin(a *hx.Node) {
 	o := h.w.AddKey()
 	p := h.w.Peers[o]
+	// babble treats key strings case-insensitively (Peer.PubKeyString): one joiner in four spells its key in lower case
+	spelled := p.PubKeyHex
+	if h.rng.Intn(4) == 0 {
+		spelled = strings.ToLower(spelled)
+		h.actions["join-request-lower-case-key"]++
+	}
 	mk := func() hg.InternalTransaction {
-		itx := hg.NewInternalTransactionJoin(*peers.NewPeer(p.PubKeyHex, p.NetAddr, p.Moniker))
+		itx := hg.NewInternalTransactionJoin(*peers.NewPeer(spelled, p.NetAddr, p.Moniker))
 		itx.Sign(h.w.Privs[o]) // ECDSA signatures are randomised: a second request has the same body and another signature
 		return itx
 	}
